@@ -13,14 +13,16 @@ def parent_map(root: ast.AST) -> Dict[int, ast.AST]:
     return pm
 
 
-_pm_cache: Dict[int, Dict[int, ast.AST]] = {}
+import weakref
+_pm_cache: "weakref.WeakKeyDictionary" = weakref.WeakKeyDictionary()
 
 
 def parents(f: FuncInfo) -> Dict[int, ast.AST]:
-    k = id(f.node)
-    if k not in _pm_cache:
-        _pm_cache[k] = parent_map(f.node)
-    return _pm_cache[k]
+    pm = _pm_cache.get(f.node)          # keyed by the node object, weakly (never by id(): addresses are reused)
+    if pm is None:
+        pm = parent_map(f.node)
+        _pm_cache[f.node] = pm
+    return pm
 
 
 def enclosing_stmt(f: FuncInfo, node: ast.AST) -> Optional[ast.stmt]:
